@@ -131,12 +131,15 @@ def check(case):
                 tags.add("empty_control_cell")
                 continue
             mn, mx, ov = min(vals), max(vals), overall[j]
+            sc = max(abs(mn), abs(mx), abs(ov), 1e-300)  # operand magnitude: comparisons are relative to it
             if len(set(vals)) > 1:
                 tags.add("nt")
             elif len(vals) > 1:
                 tags.add("all_equal_groups")
             if mn < 0:
                 tags.add("negative_values")
+            if it["func"] == "tiny" and len(set(vals)) > 1:
+                tags.add("tiny_valued_metric")
             exp = {
                 "min": mn,
                 "max": mx,
@@ -152,11 +155,11 @@ def check(case):
             for errors in ("raise", "coerce"):
                 for k in ("min", "max"):
                     got = results[(k, errors)][ck][j]
-                    M.need(np.ndim(got) == 0 and M.close(got, exp[k]), f"group_{k}(errors={errors}) {where} = {got!r}, expected {exp[k]!r} from groups {vals}")
+                    M.need(np.ndim(got) == 0 and M.close(got, exp[k], 1e-9, sc), f"group_{k}(errors={errors}) {where} = {got!r}, expected {exp[k]!r} from groups {vals}")
                 for method in ("between_groups", "to_overall"):
                     got = results[("difference", method, errors)][ck][j]
                     e = exp[("difference", method)]
-                    M.need(np.ndim(got) == 0 and M.close(got, e), f"difference({method},{errors}) {where} = {got!r}, expected {e!r}; groups {vals}, overall {ov}")
+                    M.need(np.ndim(got) == 0 and M.close(got, e, 1e-9, sc), f"difference({method},{errors}) {where} = {got!r}, expected {e!r}; groups {vals}, overall {ov}")
                     M.need(float(got) >= 0, f"difference({method},{errors}) {where} is negative: {got!r}")
                 got = results[("ratio", "between_groups", errors)][ck][j]
                 e = exp[("ratio", "between_groups")]
@@ -190,7 +193,7 @@ def check(case):
                         M.need(math.isnan(v) or v >= 0, f"ratio of a non-negative metric is negative: {v} {where}")
                 db = float(results[("difference", "between_groups", errors)][ck][j])
                 dt = float(results[("difference", "to_overall", errors)][ck][j])
-                tol = 1e-9 * max(1.0, abs(mx), abs(mn))
+                tol = 1e-9 * sc
                 M.need(db <= 2 * dt + tol, f"between_groups difference {db} > 2 x to_overall difference {dt}; {where}")
                 if it["func"] in MEAN_METRICS and _same_weights(it):
                     M.need(dt <= db + tol, f"weighted-mean metric: to_overall difference {dt} > between_groups difference {db}; {where}")
@@ -217,7 +220,7 @@ def _strategy(draw):
 
 def _base_strategy():
     return M.mf_case(
-        metric_keys=("selection_rate", "selection_rate", "wmean", "mean_prediction", "wmean", "count", "lin"),
+        metric_keys=("selection_rate", "selection_rate", "wmean", "mean_prediction", "wmean", "count", "lin", "tiny"),
         allow_collisions=False,
     )
 
@@ -225,5 +228,5 @@ def _base_strategy():
 SUBS = [
     Sub("aggregates", check, strategy=_strategy, quick=1200, thorough=30000, shards=16,
         floors={"nt": 0.3, "zero_denominator": 0.05, "control": 0.15, "negative_values": 0.03,
-                "all_equal_groups": 0.05, "mean_metric": 0.3, "dict": 0.296}),
+                "all_equal_groups": 0.05, "tiny_valued_metric": 0.02, "mean_metric": 0.3, "dict": 0.296}),
 ]
